@@ -10,6 +10,7 @@ it implied by the documented session grammar of C22).
 import P2.Model.SyncMetrics
 import P2.Lemmas.Heights
 import P2.Lemmas.C40
+import P2.Extracted.C40
 
 namespace P2.C40
 open P2.SyncMetrics P2.Heights
@@ -407,6 +408,15 @@ theorem c40_running_active (evs : List (Nat × Ev)) (h : StartedFirst evs)
     (U : List Nat) (hU : U.Nodup) (hcover : ∀ e ∈ evs, e.1 ∈ U) :
     (run evs).running = sumOver U fun i => active (proj i evs) :=
   (runinv_run evs h).act U hU hcover
+
+/-- Tie to the source text: the arithmetic of the repair, `count_session_bytes`, is the Lean term
+    that `rs2lean` regenerates from the current Rust body on every run (`c` = the
+    `counted_bytes` entry of the session or `(0, 0)`, `ups` = `HashMap::insert`). -/
+theorem c40_model_is_source (s : Agg) (id : Nat) (m : Metrics) :
+    ((countSessionBytes s id m).sent, (countSessionBytes s id m).recv,
+      (countSessionBytes s id m).counted)
+    = P2.Extracted.C40.countSessionBytesT s.sent s.recv s.counted
+        ((lookup id s.counted).getD (0, 0)) upsert id m.sentBytes m.recvBytes := rfl
 
 /-! ## A decidable sufficient check for well-formedness (used for the concrete witnesses) -/
 
